@@ -27,7 +27,7 @@ CLAIMS.update({
     ),
     "C06": (
         "add_alt / add_alt_err are proved to implement the priority rule (later replaces, equal merges, earlier kept; zero-sized fast paths leave an error); every combinator proved leaves as pending error exactly the furthest of the offers made inside it and the one pending at entry, merged at equal positions (Offers specification); error construction sites report a truthful span and found token; the max-fold lemmas (Verus) lift this to whole grammars.",
-        _A + " Rich/Simple/Cheap merge functions themselves are exercised only through their LabelError contract (the recording error type); their internals are not proved.",
+        _A + " The library's own error types are under contract too (Rich/Simple/Cheap/EmptyErr: expected_found, merge_expected_found = union / user error preserved, replace_expected_found, same span for all three; bounded number of expectations per error); Rich::merge (flat_merge) exhausts the solver's memory and is not proved. filter()'s found token and collect_exactly's silent failure are recorded findings.",
         "DESIGN 4/C06",
     ),
     "C07": (
@@ -47,16 +47,16 @@ CLAIMS.update({
     ),
     "C10": (
         "One Input contract (begin at 0; next yields token i and cursor i+1 or None at the end without moving; spans/slices cover the cursor range) is proved per representation: &[T], &[T;N], &str (bounded buffers), Input::map, map_span, with_context over the symbolic input (unbounded), IterInput and Stream (bounded, at-most-once in-order pulls); all combinators are proved against an input that satisfies nothing but this contract.",
-        _A + " IoInput, Graphemes and the 512-item batch boundary of Stream are not covered.",
+        _A + " IoInput is proved against the same contract over a ghost reader with <= 4 bytes (bounded; BufReader is std's); Graphemes and the 512-item batch boundary of Stream are not covered.",
         "DESIGN 4/C10",
     ),
     "C12": (
-        "Recursive (declare/define and recursive()) is proved to forward to its definition from the caller's state (so a recursive grammar equals its unrolling by induction over a terminating parse); one level of real self-reference is checked bounded; a second definition is refused and the first stays in force.",
+        "Recursive (declare/define and recursive()) is proved to forward to its definition from the caller's state (so a recursive grammar equals its unrolling by induction over a terminating parse); one level of real self-reference is checked bounded; mutually recursive declarations with a handle cloned before definition and the original dropped still reach the definition; a second definition is refused and the first stays in force.",
         _A + " define() is entered through a cfg-guarded hook under Kani (its #[track_caller] location lookup is not translatable); stack depth / stacker is not decided.",
         "DESIGN 4/C12",
     ),
     "C13": (
-        "Forwarding contract proved for &T, &&T, Box, Rc, Arc, Boxed (and its clone), Either, Cache::get: exactly one run of the wrapped parser from the caller's state with the same result, position, errors and pending error; a second parse through the same Cache is a fresh run; parse_with_state builds its per-parse state from its arguments only. Interior-mutability sites of the library are enumerated by a source scan compared with a reviewed list.",
+        "Every harness enters its parser through Mode::invoke (go_emit/go_check, the dynamic-dispatch entry points), so dispatch-path independence is part of every combinator's proof; the hand-written Clone impls are proved to copy every field to the same field (clone = same parser value). Forwarding contract proved for &T, &&T, Box, Rc, Arc, Boxed (and its clone), Either, Cache::get: exactly one run of the wrapped parser from the caller's state with the same result, position, errors and pending error; a second parse through the same Cache is a fresh run; parse_with_state builds its per-parse state from its arguments only. Interior-mutability sites of the library are enumerated by a source scan compared with a reviewed list.",
         _A + " &self immutability of safe code is the compiler's guarantee; threads are not decided.",
         "DESIGN 4/C13",
     ),
@@ -86,7 +86,7 @@ CLAIMS.update({
         "DESIGN 4/C18",
     ),
     "C19": (
-        "Drop-exactly-once contracts on the unsafe sites with a drop-tracking output type: array group and collect_exactly into [T;N] / Box<[T;N]> for N = 2 (3 in thorough): success hands every value to the caller undropped, failure at any index drops the initialised prefix exactly once, Check mode builds no values; Kani's pointer/initialisation checks are clean.",
+        "Drop-exactly-once contracts on the unsafe sites with a drop-tracking output type: array group and collect_exactly into [T;N] / Box<[T;N]> for N = 2 (3 in thorough): success hands every value to the caller undropped, failure at any index drops the initialised prefix exactly once, Check mode builds no values; the same with a zero-sized output type that has drop glue (the unsafe sites branch on sizes); Kani's pointer/initialisation checks are clean.",
         _A + " Const-generic N is a finite family of complete proofs (2, 3); everywhere else drop-once is rustc's guarantee for safe code.",
         "DESIGN 4/C19",
     ),
